@@ -83,7 +83,9 @@ class TCPServer:
                 try:
                     self.writer.write(event.data)
                     await self.writer.drain()
-                except (ConnectionError, RuntimeError):
+                except (OSError, RuntimeError):
+                    # Any OSError, as drain raises whatever error lost
+                    # the connection e.g. a time out or unreachable host.
                     await self.protocol.handle(Closed())
                 except asyncio.CancelledError:
                     # Cancelled (e.g. the graceful timeout has elapsed)
